@@ -33,7 +33,7 @@ def log(*a):
 
 def sh(cmd, cwd=None, timeout=None, env=None, check=False, input=None):
     p = subprocess.run(cmd, cwd=cwd, timeout=timeout, env=env or ENV, input=input,
-                       stdout=subprocess.PIPE, stderr=subprocess.STDOUT, text=True)
+                       stdout=subprocess.PIPE, stderr=subprocess.STDOUT, text=True, errors="replace")
     if check and p.returncode != 0:
         raise RuntimeError("command failed: %s\n%s" % (cmd, p.stdout[-4000:]))
     return p.returncode, p.stdout
@@ -206,6 +206,27 @@ def proof_gate(prop, theorems, extra_modules=(), thorough=False):
     return info, problems
 
 
+def pins_of(stem):
+    return [tuple(x) for x in json.load(open(os.path.join(VERIF, "lib", "pins", stem + ".json")))]
+
+
+def proof_gate_multi(stems, thorough=False):
+    """proof gate over several statement files (Props/<stem>.v with lib/pins/<stem>.json); merged info"""
+    info = {"obligations": 0, "discharged": 0, "theorems": [], "gate_wall_s": 0, "statement_files": list(stems)}
+    problems = []
+    for st in stems:
+        i, pr = proof_gate(st, pins_of(st), thorough=thorough)
+        info["obligations"] += i.get("obligations", 0)
+        info["discharged"] += i.get("discharged", 0)
+        info["theorems"] += i.get("theorems", [])
+        info["gate_wall_s"] = round(info["gate_wall_s"] + i.get("gate_wall_s", 0), 2)
+        for k in ("coqchk_rc",):
+            if k in i:
+                info[k] = max(info.get(k, 0), i[k])
+        problems += pr
+    return info, problems
+
+
 def coq_eval(lines_v, timeout=900):
     """Run one coqc on generated vernacular text; returns stdout."""
     os.makedirs(os.path.join(CACHE, "cases"), exist_ok=True)
@@ -299,7 +320,7 @@ def run_lines(cmd, lines, timeout=1800, cwd=None):
     while start < n:
         data = "\n".join(lines[start:]) + "\n"
         p = subprocess.run(cmd, input=data, stdout=subprocess.PIPE, stderr=subprocess.PIPE,
-                           text=True, timeout=timeout, env=ENV, cwd=cwd)
+                           text=True, errors="replace", timeout=timeout, env=ENV, cwd=cwd)
         out = p.stdout.split("\n")
         if out and out[-1] == "":
             out.pop()
